@@ -122,12 +122,12 @@ func (i *importer) interfaceImports() fileImports {
 	uses := func(name string) bool {
 		for _, q := range i.Queries {
 			if q.hasRetType() {
-				if strings.HasPrefix(q.Ret.Type(), name) {
+				if strings.HasPrefix(strings.TrimPrefix(q.Ret.Type(), "[]"), name) {
 					return true
 				}
 			}
 			if !q.Arg.isEmpty() {
-				if strings.HasPrefix(q.Arg.Type(), name) {
+				if strings.HasPrefix(strings.TrimPrefix(q.Arg.Type(), "[]"), name) {
 					return true
 				}
 			}
@@ -276,7 +276,7 @@ func (i *importer) queryImports(filename string) fileImports {
 						}
 					}
 				}
-				if strings.HasPrefix(q.Ret.Type(), name) {
+				if strings.HasPrefix(strings.TrimPrefix(q.Ret.Type(), "[]"), name) {
 					return true
 				}
 			}
@@ -289,7 +289,7 @@ func (i *importer) queryImports(filename string) fileImports {
 						}
 					}
 				}
-				if strings.HasPrefix(q.Arg.Type(), name) {
+				if strings.HasPrefix(strings.TrimPrefix(q.Arg.Type(), "[]"), name) {
 					return true
 				}
 			}
